@@ -21,6 +21,8 @@ type Params struct {
 type CLI struct {
 	Now  int64    `json:"now"` // simulated wall clock, unix ns
 	Argv []string `json:"argv"`
+	// TZ, if set, is the process's local time zone for this run (time.Local).
+	TZ string `json:"tz,omitempty"`
 }
 
 // Fault kinds.
